@@ -805,6 +805,30 @@ func (e *Env) trCall(n *ast.CallExpr) TV {
 					pats[x.String()] = x
 				}
 			}
+			// uninterpreted applications with the bound variable as a direct argument
+			if _, isUF := e.w.ufuncs[x.Op]; isUF && len(x.Args) > 0 {
+				direct := false
+				for _, a := range x.Args {
+					if a == bv {
+						direct = true
+					}
+				}
+				if direct {
+					nested := false
+					for _, a := range x.Args {
+						if a != bv {
+							a.walk(func(y *Term) {
+								if y == bv {
+									nested = true
+								}
+							})
+						}
+					}
+					if !nested {
+						pats[x.String()] = x
+					}
+				}
+			}
 		})
 		if len(pats) > 0 {
 			args := []*Term{inner}
